@@ -451,7 +451,11 @@ func (ex *Exec) havocAll(st *State) {
 // ---- contracts at call sites ----
 
 func (ex *Exec) bindParams(env *SpecEnv, fn *ssa.Function, sig *types.Signature, args []Val, invoke bool) {
-	// names from the signature (receiver first)
+	// names from the signature (receiver first); a call through a function value carries the unnamed function type, the
+	// parameter names are those of the function it resolves to
+	if fn != nil && fn.Signature != nil && sig.Recv() == nil && fn.Signature.Recv() == nil && fn.Signature.Params().Len() == sig.Params().Len() {
+		sig = fn.Signature
+	}
 	i := 0
 	if recv := sig.Recv(); recv != nil {
 		name := recv.Name()
@@ -932,8 +936,11 @@ func (ex *Exec) doBuiltin(fr *Frame, st *State, b *ssa.Builtin, cc *ssa.CallComm
 				name := elemHeapName(sl.Elem(), l.Path)
 				rowS := ArrSort(SInt, l.Sort)
 				h := ex.heapGet(st, name, ArrSort(SInt, rowS))
-				oldRow := Select(h, dst.L[0])
-				srcView := shiftRow(Select(h, src.L[0]), src.L[1])
+				oldRow := Fresh("dstrow", rowS)
+				ex.assume(st, Eq(oldRow, Select(h, dst.L[0])))
+				srcRow := Fresh("srcrow", rowS)
+				ex.assume(st, Eq(srcRow, Select(h, src.L[0])))
+				srcView := shiftRow(srcRow, src.L[1])
 				nrow := Fresh("copyrow", rowS)
 				dstView := shiftRow(nrow, dst.L[1])
 				ex.assume(st, Forall([]*Term{j}, Implies(And(Ge(j, Int(0)), Lt(j, n)), Eq(Select(dstView, j), Select(srcView, j))), []*Term{Select(dstView, j)}, []*Term{Select(srcView, j)}))
@@ -1023,7 +1030,10 @@ func (ex *Exec) doAppend(st *State, s, xs Val, rt types.Type) Val {
 			row = Fresh("approw", rowS)
 			ex.boundN++
 			j := Bound(fmt.Sprintf("j%d", ex.boundN), SInt)
-			src := shiftRow(Select(h, sarr), soff)
+			// the source row gets a name: after a branch merge the heap is an ite term, and z3 drops a pattern that contains one
+			srow := Fresh("srcrow", rowS)
+			ex.assume(st, Eq(srow, Select(h, sarr)))
+			src := shiftRow(srow, soff)
 			ex.assume(st, Forall([]*Term{j}, Implies(And(Ge(j, Int(0)), Lt(j, slen)), Eq(Select(row, j), Select(src, j))), []*Term{Select(row, j)}, []*Term{Select(src, j)}))
 		}
 		if xlen.IsIntLit() && xlen.IntVal().Int64() <= 16 {
@@ -1036,7 +1046,9 @@ func (ex *Exec) doAppend(st *State, s, xs Val, rt types.Type) Val {
 			ex.boundN++
 			j := Bound(fmt.Sprintf("j%d", ex.boundN), SInt)
 			ex.assume(st, Forall([]*Term{j}, Implies(And(Ge(j, Int(0)), Lt(j, slen)), Eq(Select(nrow, j), Select(row, j))), []*Term{Select(nrow, j)}, []*Term{Select(row, j)}))
-			xsrc := shiftRow(Select(h, xarr), xoff)
+			xrow := Fresh("xsrcrow", rowS)
+			ex.assume(st, Eq(xrow, Select(h, xarr)))
+			xsrc := shiftRow(xrow, xoff)
 			tail := shiftRow(nrow, slen)
 			ex.assume(st, Forall([]*Term{j}, Implies(And(Ge(j, Int(0)), Lt(j, xlen)), Eq(Select(tail, j), Select(xsrc, j))), []*Term{Select(tail, j)}, []*Term{Select(xsrc, j)}))
 			row = nrow
